@@ -19,6 +19,9 @@ import SqiGen.GfGcd
 import SqiProofs.FiatLayer1
 import SqiProofs.FiatLayer3
 import SqiProofs.FiatLayer5
+import SqiProofs.FiatBytes1
+import SqiProofs.FiatBytes3
+import SqiProofs.FiatBytes5
 
 namespace SqiProps.C07
 open SqiModel.Gf SqiProofs.GfRef SqiProofs.GfMont SqiProofs.GfFp2
@@ -299,8 +302,10 @@ these). `SqiModel.Fiat.run` is the interpreter, `runLimbs prog n [a, b]` runs a 
 (`SqiProofs.FiatExec`) + per-round invariants discharged by `omega` on minimal contexts:
 `mul`, `square` = `montMul n p 1` (`SqiProofs.FiatMul*/FiatSqr*`), `add`, `sub`, `opp` = the value-level `Ref.fp_add/fp_sub`
 (`SqiProofs.FiatLin*`), `set_one`, `selectznz`, `nonzero` (`SqiProofs.FiatLayer*`) — at ALL THREE levels.
-NOT proved (tied three ways on every run instead — real fiat function / interpreter on the extracted program / generic
-`montMul` model, tools/props/c07.py "fiat-programs"): to/from_montgomery, to/from_bytes (the latter two are not called by the library). -/
+`to_montgomery` = `montMul n p 1 · (R² mod p)`, `from_montgomery` = `montMul n p 1 · 1` (`SqiProofs.FiatToM*/FiatFromM*`, same round
+invariant with the top accumulator limb a lazy sum), `to_bytes` / `from_bytes` = little-endian bytes of the limbs (`SqiProofs.FiatBytes*`; not
+called by the library; at level 5 `to_bytes` writes the last byte through a 1-bit cast, exact for inputs < 2^505).  So all twelve extracted
+functions of each fp_p*.c are proved, none is left to the three-way differential tie (which still runs, tools/props/c07.py "fiat-programs"). -/
 
 open SqiModel.Fiat in
 /-- **the extracted fiat programs of level 1 are the value-level model** (`Ref.fp_*`, which `montMul_spec`, `fp_add_spec`, …
@@ -312,7 +317,9 @@ theorem fiat_layer_refines_model_lvl1 :
       runLimbs SqiGen.Fiat1.sub 4 [a, b] = Ref.fp_sub lvl1 a b) ∧
     (∀ a, a < lvl1.R →
       runLimbs SqiGen.Fiat1.square 4 [a] = Ref.fp_sqr lvl1 a ∧
-      runLimbs SqiGen.Fiat1.opp 4 [a] = Ref.fp_sub lvl1 0 a) ∧
+      runLimbs SqiGen.Fiat1.opp 4 [a] = Ref.fp_sub lvl1 0 a ∧
+      runLimbs SqiGen.Fiat1.to_montgomery 4 [a] = Ref.fp_tomont lvl1 a ∧
+      runLimbs SqiGen.Fiat1.from_montgomery 4 [a] = Ref.fp_frommont lvl1 a) ∧
     runLimbs SqiGen.Fiat1.set_one 4 [] = Ref.fp_set_one lvl1 ∧
     (∀ c a0 a1 a2 a3 b0 b1 b2 b3 : Nat, a0 < 2^64 → a1 < 2^64 → a2 < 2^64 → a3 < 2^64 →
       b0 < 2^64 → b1 < 2^64 → b2 < 2^64 → b3 < 2^64 →
@@ -320,14 +327,26 @@ theorem fiat_layer_refines_model_lvl1 :
         if c % 2 ^ 64 = 0 then [a0,a1,a2,a3] else [b0,b1,b2,b3]) ∧
     (∀ a0 a1 a2 a3 : Nat, a0 < 2^64 → a1 < 2^64 → a2 < 2^64 → a3 < 2^64 →
       run SqiGen.Fiat1.nonzero [[a0,a1,a2,a3]] = [a0 ||| (a1 ||| (a2 ||| a3))] ∧
-      ((a0 ||| (a1 ||| (a2 ||| a3))) = 0 ↔ (a0 = 0 ∧ a1 = 0 ∧ a2 = 0 ∧ a3 = 0))) :=
+      ((a0 ||| (a1 ||| (a2 ||| a3))) = 0 ↔ (a0 = 0 ∧ a1 = 0 ∧ a2 = 0 ∧ a3 = 0))) ∧
+    (∀ a0 a1 a2 a3 : Nat, a0 < 2^64 → a1 < 2^64 → a2 < 2^64 → a3 < 2^64 →
+      run SqiGen.Fiat1.to_bytes [[a0, a1, a2, a3]] = digits 256 8 a0 ++ digits 256 8 a1 ++ digits 256 8 a2 ++ digits 256 8 a3) ∧
+    (∀ b0 b1 b2 b3 b4 b5 b6 b7 b8 b9 b10 b11 b12 b13 b14 b15 b16 b17 b18 b19 b20 b21 b22 b23 b24 b25 b26 b27 b28 b29 b30 b31 : Nat,
+      b0 < 256 → b1 < 256 → b2 < 256 → b3 < 256 → b4 < 256 → b5 < 256 → b6 < 256 → b7 < 256 → b8 < 256 → b9 < 256 → b10 < 256 → b11 < 256 → b12 < 256 → b13 < 256 → b14 < 256 → b15 < 256 → b16 < 256 → b17 < 256 → b18 < 256 → b19 < 256 → b20 < 256 → b21 < 256 → b22 < 256 → b23 < 256 → b24 < 256 → b25 < 256 → b26 < 256 → b27 < 256 → b28 < 256 → b29 < 256 → b30 < 256 → b31 < 256 →
+      run SqiGen.Fiat1.from_bytes [[b0, b1, b2, b3, b4, b5, b6, b7, b8, b9, b10, b11, b12, b13, b14, b15, b16, b17, b18, b19, b20, b21, b22, b23, b24, b25, b26, b27, b28, b29, b30, b31]] =
+        [b0 + 256 * b1 + 65536 * b2 + 16777216 * b3 + 4294967296 * b4 + 1099511627776 * b5 + 281474976710656 * b6 + 72057594037927936 * b7,
+         b8 + 256 * b9 + 65536 * b10 + 16777216 * b11 + 4294967296 * b12 + 1099511627776 * b13 + 281474976710656 * b14 + 72057594037927936 * b15,
+         b16 + 256 * b17 + 65536 * b18 + 16777216 * b19 + 4294967296 * b20 + 1099511627776 * b21 + 281474976710656 * b22 + 72057594037927936 * b23,
+         b24 + 256 * b25 + 65536 * b26 + 16777216 * b27 + 4294967296 * b28 + 1099511627776 * b29 + 281474976710656 * b30 + 72057594037927936 * b31]) :=
   ⟨fun a b ha hb => ⟨SqiProofs.FiatLayer1.mul_val a b ha hb, SqiProofs.FiatLayer1.add_val a b ha hb,
       SqiProofs.FiatLayer1.sub_val a b ha hb⟩,
-   fun a ha => ⟨SqiProofs.FiatLayer1.square_val a ha, SqiProofs.FiatLayer1.opp_val a ha⟩,
+   fun a ha => ⟨SqiProofs.FiatLayer1.square_val a ha, SqiProofs.FiatLayer1.opp_val a ha,
+      SqiProofs.FiatLayer1.to_montgomery_val a ha, SqiProofs.FiatLayer1.from_montgomery_val a ha⟩,
    SqiProofs.FiatLayer1.set_one_val,
    fun c a0 a1 a2 a3 b0 b1 b2 b3 ha0 ha1 ha2 ha3 hb0 hb1 hb2 hb3 =>
      SqiProofs.FiatLayer1.selectznz_correct c a0 a1 a2 a3 b0 b1 b2 b3 ha0 ha1 ha2 ha3 hb0 hb1 hb2 hb3,
-   fun a0 a1 a2 a3 ha0 ha1 ha2 ha3 => SqiProofs.FiatLayer1.nonzero_correct a0 a1 a2 a3 ha0 ha1 ha2 ha3⟩
+   fun a0 a1 a2 a3 ha0 ha1 ha2 ha3 => SqiProofs.FiatLayer1.nonzero_correct a0 a1 a2 a3 ha0 ha1 ha2 ha3,
+   fun a0 a1 a2 a3 ha0 ha1 ha2 ha3 => SqiProofs.FiatBytes1.to_bytes_correct a0 a1 a2 a3 ha0 ha1 ha2 ha3,
+   fun b0 b1 b2 b3 b4 b5 b6 b7 b8 b9 b10 b11 b12 b13 b14 b15 b16 b17 b18 b19 b20 b21 b22 b23 b24 b25 b26 b27 b28 b29 b30 b31 hb0 hb1 hb2 hb3 hb4 hb5 hb6 hb7 hb8 hb9 hb10 hb11 hb12 hb13 hb14 hb15 hb16 hb17 hb18 hb19 hb20 hb21 hb22 hb23 hb24 hb25 hb26 hb27 hb28 hb29 hb30 hb31 => SqiProofs.FiatBytes1.from_bytes_correct b0 b1 b2 b3 b4 b5 b6 b7 b8 b9 b10 b11 b12 b13 b14 b15 b16 b17 b18 b19 b20 b21 b22 b23 b24 b25 b26 b27 b28 b29 b30 b31 hb0 hb1 hb2 hb3 hb4 hb5 hb6 hb7 hb8 hb9 hb10 hb11 hb12 hb13 hb14 hb15 hb16 hb17 hb18 hb19 hb20 hb21 hb22 hb23 hb24 hb25 hb26 hb27 hb28 hb29 hb30 hb31⟩
 
 open SqiModel.Fiat in
 /-- level 3 (6 limbs), same statement -/
@@ -338,7 +357,9 @@ theorem fiat_layer_refines_model_lvl3 :
       runLimbs SqiGen.Fiat3.sub 6 [a, b] = Ref.fp_sub lvl3 a b) ∧
     (∀ a, a < lvl3.R →
       runLimbs SqiGen.Fiat3.square 6 [a] = Ref.fp_sqr lvl3 a ∧
-      runLimbs SqiGen.Fiat3.opp 6 [a] = Ref.fp_sub lvl3 0 a) ∧
+      runLimbs SqiGen.Fiat3.opp 6 [a] = Ref.fp_sub lvl3 0 a ∧
+      runLimbs SqiGen.Fiat3.to_montgomery 6 [a] = Ref.fp_tomont lvl3 a ∧
+      runLimbs SqiGen.Fiat3.from_montgomery 6 [a] = Ref.fp_frommont lvl3 a) ∧
     runLimbs SqiGen.Fiat3.set_one 6 [] = Ref.fp_set_one lvl3 ∧
     (∀ c a0 a1 a2 a3 a4 a5 b0 b1 b2 b3 b4 b5 : Nat, a0 < 2^64 → a1 < 2^64 → a2 < 2^64 → a3 < 2^64 → a4 < 2^64 → a5 < 2^64 →
       b0 < 2^64 → b1 < 2^64 → b2 < 2^64 → b3 < 2^64 → b4 < 2^64 → b5 < 2^64 →
@@ -346,14 +367,28 @@ theorem fiat_layer_refines_model_lvl3 :
         if c % 2 ^ 64 = 0 then [a0, a1, a2, a3, a4, a5] else [b0, b1, b2, b3, b4, b5]) ∧
     (∀ a0 a1 a2 a3 a4 a5 : Nat, a0 < 2^64 → a1 < 2^64 → a2 < 2^64 → a3 < 2^64 → a4 < 2^64 → a5 < 2^64 →
       run SqiGen.Fiat3.nonzero [[a0, a1, a2, a3, a4, a5]] = [a0 ||| (a1 ||| (a2 ||| (a3 ||| (a4 ||| (a5)))))] ∧
-      ((a0 ||| (a1 ||| (a2 ||| (a3 ||| (a4 ||| (a5)))))) = 0 ↔ (a0 = 0 ∧ a1 = 0 ∧ a2 = 0 ∧ a3 = 0 ∧ a4 = 0 ∧ a5 = 0))) :=
+      ((a0 ||| (a1 ||| (a2 ||| (a3 ||| (a4 ||| (a5)))))) = 0 ↔ (a0 = 0 ∧ a1 = 0 ∧ a2 = 0 ∧ a3 = 0 ∧ a4 = 0 ∧ a5 = 0))) ∧
+    (∀ a0 a1 a2 a3 a4 a5 : Nat, a0 < 2^64 → a1 < 2^64 → a2 < 2^64 → a3 < 2^64 → a4 < 2^64 → a5 < 2^64 →
+      run SqiGen.Fiat3.to_bytes [[a0, a1, a2, a3, a4, a5]] = digits 256 8 a0 ++ digits 256 8 a1 ++ digits 256 8 a2 ++ digits 256 8 a3 ++ digits 256 8 a4 ++ digits 256 8 a5) ∧
+    (∀ b0 b1 b2 b3 b4 b5 b6 b7 b8 b9 b10 b11 b12 b13 b14 b15 b16 b17 b18 b19 b20 b21 b22 b23 b24 b25 b26 b27 b28 b29 b30 b31 b32 b33 b34 b35 b36 b37 b38 b39 b40 b41 b42 b43 b44 b45 b46 b47 : Nat,
+      b0 < 256 → b1 < 256 → b2 < 256 → b3 < 256 → b4 < 256 → b5 < 256 → b6 < 256 → b7 < 256 → b8 < 256 → b9 < 256 → b10 < 256 → b11 < 256 → b12 < 256 → b13 < 256 → b14 < 256 → b15 < 256 → b16 < 256 → b17 < 256 → b18 < 256 → b19 < 256 → b20 < 256 → b21 < 256 → b22 < 256 → b23 < 256 → b24 < 256 → b25 < 256 → b26 < 256 → b27 < 256 → b28 < 256 → b29 < 256 → b30 < 256 → b31 < 256 → b32 < 256 → b33 < 256 → b34 < 256 → b35 < 256 → b36 < 256 → b37 < 256 → b38 < 256 → b39 < 256 → b40 < 256 → b41 < 256 → b42 < 256 → b43 < 256 → b44 < 256 → b45 < 256 → b46 < 256 → b47 < 256 →
+      run SqiGen.Fiat3.from_bytes [[b0, b1, b2, b3, b4, b5, b6, b7, b8, b9, b10, b11, b12, b13, b14, b15, b16, b17, b18, b19, b20, b21, b22, b23, b24, b25, b26, b27, b28, b29, b30, b31, b32, b33, b34, b35, b36, b37, b38, b39, b40, b41, b42, b43, b44, b45, b46, b47]] =
+        [b0 + 256 * b1 + 65536 * b2 + 16777216 * b3 + 4294967296 * b4 + 1099511627776 * b5 + 281474976710656 * b6 + 72057594037927936 * b7,
+         b8 + 256 * b9 + 65536 * b10 + 16777216 * b11 + 4294967296 * b12 + 1099511627776 * b13 + 281474976710656 * b14 + 72057594037927936 * b15,
+         b16 + 256 * b17 + 65536 * b18 + 16777216 * b19 + 4294967296 * b20 + 1099511627776 * b21 + 281474976710656 * b22 + 72057594037927936 * b23,
+         b24 + 256 * b25 + 65536 * b26 + 16777216 * b27 + 4294967296 * b28 + 1099511627776 * b29 + 281474976710656 * b30 + 72057594037927936 * b31,
+         b32 + 256 * b33 + 65536 * b34 + 16777216 * b35 + 4294967296 * b36 + 1099511627776 * b37 + 281474976710656 * b38 + 72057594037927936 * b39,
+         b40 + 256 * b41 + 65536 * b42 + 16777216 * b43 + 4294967296 * b44 + 1099511627776 * b45 + 281474976710656 * b46 + 72057594037927936 * b47]) :=
   ⟨fun a b ha hb => ⟨SqiProofs.FiatLayer3.mul_val a b ha hb, SqiProofs.FiatLayer3.add_val a b ha hb,
       SqiProofs.FiatLayer3.sub_val a b ha hb⟩,
-   fun a ha => ⟨SqiProofs.FiatLayer3.square_val a ha, SqiProofs.FiatLayer3.opp_val a ha⟩,
+   fun a ha => ⟨SqiProofs.FiatLayer3.square_val a ha, SqiProofs.FiatLayer3.opp_val a ha,
+      SqiProofs.FiatLayer3.to_montgomery_val a ha, SqiProofs.FiatLayer3.from_montgomery_val a ha⟩,
    SqiProofs.FiatLayer3.set_one_val,
    fun c a0 a1 a2 a3 a4 a5 b0 b1 b2 b3 b4 b5 ha0 ha1 ha2 ha3 ha4 ha5 hb0 hb1 hb2 hb3 hb4 hb5 =>
      SqiProofs.FiatLayer3.selectznz_correct c a0 a1 a2 a3 a4 a5 b0 b1 b2 b3 b4 b5 ha0 ha1 ha2 ha3 ha4 ha5 hb0 hb1 hb2 hb3 hb4 hb5,
-   fun a0 a1 a2 a3 a4 a5 ha0 ha1 ha2 ha3 ha4 ha5 => SqiProofs.FiatLayer3.nonzero_correct a0 a1 a2 a3 a4 a5 ha0 ha1 ha2 ha3 ha4 ha5⟩
+   fun a0 a1 a2 a3 a4 a5 ha0 ha1 ha2 ha3 ha4 ha5 => SqiProofs.FiatLayer3.nonzero_correct a0 a1 a2 a3 a4 a5 ha0 ha1 ha2 ha3 ha4 ha5,
+   fun a0 a1 a2 a3 a4 a5 ha0 ha1 ha2 ha3 ha4 ha5 => SqiProofs.FiatBytes3.to_bytes_correct a0 a1 a2 a3 a4 a5 ha0 ha1 ha2 ha3 ha4 ha5,
+   fun b0 b1 b2 b3 b4 b5 b6 b7 b8 b9 b10 b11 b12 b13 b14 b15 b16 b17 b18 b19 b20 b21 b22 b23 b24 b25 b26 b27 b28 b29 b30 b31 b32 b33 b34 b35 b36 b37 b38 b39 b40 b41 b42 b43 b44 b45 b46 b47 hb0 hb1 hb2 hb3 hb4 hb5 hb6 hb7 hb8 hb9 hb10 hb11 hb12 hb13 hb14 hb15 hb16 hb17 hb18 hb19 hb20 hb21 hb22 hb23 hb24 hb25 hb26 hb27 hb28 hb29 hb30 hb31 hb32 hb33 hb34 hb35 hb36 hb37 hb38 hb39 hb40 hb41 hb42 hb43 hb44 hb45 hb46 hb47 => SqiProofs.FiatBytes3.from_bytes_correct b0 b1 b2 b3 b4 b5 b6 b7 b8 b9 b10 b11 b12 b13 b14 b15 b16 b17 b18 b19 b20 b21 b22 b23 b24 b25 b26 b27 b28 b29 b30 b31 b32 b33 b34 b35 b36 b37 b38 b39 b40 b41 b42 b43 b44 b45 b46 b47 hb0 hb1 hb2 hb3 hb4 hb5 hb6 hb7 hb8 hb9 hb10 hb11 hb12 hb13 hb14 hb15 hb16 hb17 hb18 hb19 hb20 hb21 hb22 hb23 hb24 hb25 hb26 hb27 hb28 hb29 hb30 hb31 hb32 hb33 hb34 hb35 hb36 hb37 hb38 hb39 hb40 hb41 hb42 hb43 hb44 hb45 hb46 hb47⟩
 
 open SqiModel.Fiat in
 /-- level 5 (8 limbs), same statement -/
@@ -364,7 +399,9 @@ theorem fiat_layer_refines_model_lvl5 :
       runLimbs SqiGen.Fiat5.sub 8 [a, b] = Ref.fp_sub lvl5 a b) ∧
     (∀ a, a < lvl5.R →
       runLimbs SqiGen.Fiat5.square 8 [a] = Ref.fp_sqr lvl5 a ∧
-      runLimbs SqiGen.Fiat5.opp 8 [a] = Ref.fp_sub lvl5 0 a) ∧
+      runLimbs SqiGen.Fiat5.opp 8 [a] = Ref.fp_sub lvl5 0 a ∧
+      runLimbs SqiGen.Fiat5.to_montgomery 8 [a] = Ref.fp_tomont lvl5 a ∧
+      runLimbs SqiGen.Fiat5.from_montgomery 8 [a] = Ref.fp_frommont lvl5 a) ∧
     runLimbs SqiGen.Fiat5.set_one 8 [] = Ref.fp_set_one lvl5 ∧
     (∀ c a0 a1 a2 a3 a4 a5 a6 a7 b0 b1 b2 b3 b4 b5 b6 b7 : Nat, a0 < 2^64 → a1 < 2^64 → a2 < 2^64 → a3 < 2^64 → a4 < 2^64 → a5 < 2^64 → a6 < 2^64 → a7 < 2^64 →
       b0 < 2^64 → b1 < 2^64 → b2 < 2^64 → b3 < 2^64 → b4 < 2^64 → b5 < 2^64 → b6 < 2^64 → b7 < 2^64 →
@@ -372,14 +409,30 @@ theorem fiat_layer_refines_model_lvl5 :
         if c % 2 ^ 64 = 0 then [a0, a1, a2, a3, a4, a5, a6, a7] else [b0, b1, b2, b3, b4, b5, b6, b7]) ∧
     (∀ a0 a1 a2 a3 a4 a5 a6 a7 : Nat, a0 < 2^64 → a1 < 2^64 → a2 < 2^64 → a3 < 2^64 → a4 < 2^64 → a5 < 2^64 → a6 < 2^64 → a7 < 2^64 →
       run SqiGen.Fiat5.nonzero [[a0, a1, a2, a3, a4, a5, a6, a7]] = [a0 ||| (a1 ||| (a2 ||| (a3 ||| (a4 ||| (a5 ||| (a6 ||| (a7)))))))] ∧
-      ((a0 ||| (a1 ||| (a2 ||| (a3 ||| (a4 ||| (a5 ||| (a6 ||| (a7)))))))) = 0 ↔ (a0 = 0 ∧ a1 = 0 ∧ a2 = 0 ∧ a3 = 0 ∧ a4 = 0 ∧ a5 = 0 ∧ a6 = 0 ∧ a7 = 0))) :=
+      ((a0 ||| (a1 ||| (a2 ||| (a3 ||| (a4 ||| (a5 ||| (a6 ||| (a7)))))))) = 0 ↔ (a0 = 0 ∧ a1 = 0 ∧ a2 = 0 ∧ a3 = 0 ∧ a4 = 0 ∧ a5 = 0 ∧ a6 = 0 ∧ a7 = 0))) ∧
+    (∀ a0 a1 a2 a3 a4 a5 a6 a7 : Nat, a0 < 2^64 → a1 < 2^64 → a2 < 2^64 → a3 < 2^64 → a4 < 2^64 → a5 < 2^64 → a6 < 2^64 → a7 < 2^64 → a7 < 2^57 →
+      run SqiGen.Fiat5.to_bytes [[a0, a1, a2, a3, a4, a5, a6, a7]] = digits 256 8 a0 ++ digits 256 8 a1 ++ digits 256 8 a2 ++ digits 256 8 a3 ++ digits 256 8 a4 ++ digits 256 8 a5 ++ digits 256 8 a6 ++ digits 256 8 a7) ∧
+    (∀ b0 b1 b2 b3 b4 b5 b6 b7 b8 b9 b10 b11 b12 b13 b14 b15 b16 b17 b18 b19 b20 b21 b22 b23 b24 b25 b26 b27 b28 b29 b30 b31 b32 b33 b34 b35 b36 b37 b38 b39 b40 b41 b42 b43 b44 b45 b46 b47 b48 b49 b50 b51 b52 b53 b54 b55 b56 b57 b58 b59 b60 b61 b62 b63 : Nat,
+      b0 < 256 → b1 < 256 → b2 < 256 → b3 < 256 → b4 < 256 → b5 < 256 → b6 < 256 → b7 < 256 → b8 < 256 → b9 < 256 → b10 < 256 → b11 < 256 → b12 < 256 → b13 < 256 → b14 < 256 → b15 < 256 → b16 < 256 → b17 < 256 → b18 < 256 → b19 < 256 → b20 < 256 → b21 < 256 → b22 < 256 → b23 < 256 → b24 < 256 → b25 < 256 → b26 < 256 → b27 < 256 → b28 < 256 → b29 < 256 → b30 < 256 → b31 < 256 → b32 < 256 → b33 < 256 → b34 < 256 → b35 < 256 → b36 < 256 → b37 < 256 → b38 < 256 → b39 < 256 → b40 < 256 → b41 < 256 → b42 < 256 → b43 < 256 → b44 < 256 → b45 < 256 → b46 < 256 → b47 < 256 → b48 < 256 → b49 < 256 → b50 < 256 → b51 < 256 → b52 < 256 → b53 < 256 → b54 < 256 → b55 < 256 → b56 < 256 → b57 < 256 → b58 < 256 → b59 < 256 → b60 < 256 → b61 < 256 → b62 < 256 → b63 < 256 →
+      run SqiGen.Fiat5.from_bytes [[b0, b1, b2, b3, b4, b5, b6, b7, b8, b9, b10, b11, b12, b13, b14, b15, b16, b17, b18, b19, b20, b21, b22, b23, b24, b25, b26, b27, b28, b29, b30, b31, b32, b33, b34, b35, b36, b37, b38, b39, b40, b41, b42, b43, b44, b45, b46, b47, b48, b49, b50, b51, b52, b53, b54, b55, b56, b57, b58, b59, b60, b61, b62, b63]] =
+        [b0 + 256 * b1 + 65536 * b2 + 16777216 * b3 + 4294967296 * b4 + 1099511627776 * b5 + 281474976710656 * b6 + 72057594037927936 * b7,
+         b8 + 256 * b9 + 65536 * b10 + 16777216 * b11 + 4294967296 * b12 + 1099511627776 * b13 + 281474976710656 * b14 + 72057594037927936 * b15,
+         b16 + 256 * b17 + 65536 * b18 + 16777216 * b19 + 4294967296 * b20 + 1099511627776 * b21 + 281474976710656 * b22 + 72057594037927936 * b23,
+         b24 + 256 * b25 + 65536 * b26 + 16777216 * b27 + 4294967296 * b28 + 1099511627776 * b29 + 281474976710656 * b30 + 72057594037927936 * b31,
+         b32 + 256 * b33 + 65536 * b34 + 16777216 * b35 + 4294967296 * b36 + 1099511627776 * b37 + 281474976710656 * b38 + 72057594037927936 * b39,
+         b40 + 256 * b41 + 65536 * b42 + 16777216 * b43 + 4294967296 * b44 + 1099511627776 * b45 + 281474976710656 * b46 + 72057594037927936 * b47,
+         b48 + 256 * b49 + 65536 * b50 + 16777216 * b51 + 4294967296 * b52 + 1099511627776 * b53 + 281474976710656 * b54 + 72057594037927936 * b55,
+         b56 + 256 * b57 + 65536 * b58 + 16777216 * b59 + 4294967296 * b60 + 1099511627776 * b61 + 281474976710656 * b62 + 72057594037927936 * b63]) :=
   ⟨fun a b ha hb => ⟨SqiProofs.FiatLayer5.mul_val a b ha hb, SqiProofs.FiatLayer5.add_val a b ha hb,
       SqiProofs.FiatLayer5.sub_val a b ha hb⟩,
-   fun a ha => ⟨SqiProofs.FiatLayer5.square_val a ha, SqiProofs.FiatLayer5.opp_val a ha⟩,
+   fun a ha => ⟨SqiProofs.FiatLayer5.square_val a ha, SqiProofs.FiatLayer5.opp_val a ha,
+      SqiProofs.FiatLayer5.to_montgomery_val a ha, SqiProofs.FiatLayer5.from_montgomery_val a ha⟩,
    SqiProofs.FiatLayer5.set_one_val,
    fun c a0 a1 a2 a3 a4 a5 a6 a7 b0 b1 b2 b3 b4 b5 b6 b7 ha0 ha1 ha2 ha3 ha4 ha5 ha6 ha7 hb0 hb1 hb2 hb3 hb4 hb5 hb6 hb7 =>
      SqiProofs.FiatLayer5.selectznz_correct c a0 a1 a2 a3 a4 a5 a6 a7 b0 b1 b2 b3 b4 b5 b6 b7 ha0 ha1 ha2 ha3 ha4 ha5 ha6 ha7 hb0 hb1 hb2 hb3 hb4 hb5 hb6 hb7,
-   fun a0 a1 a2 a3 a4 a5 a6 a7 ha0 ha1 ha2 ha3 ha4 ha5 ha6 ha7 => SqiProofs.FiatLayer5.nonzero_correct a0 a1 a2 a3 a4 a5 a6 a7 ha0 ha1 ha2 ha3 ha4 ha5 ha6 ha7⟩
+   fun a0 a1 a2 a3 a4 a5 a6 a7 ha0 ha1 ha2 ha3 ha4 ha5 ha6 ha7 => SqiProofs.FiatLayer5.nonzero_correct a0 a1 a2 a3 a4 a5 a6 a7 ha0 ha1 ha2 ha3 ha4 ha5 ha6 ha7,
+   fun a0 a1 a2 a3 a4 a5 a6 a7 ha0 ha1 ha2 ha3 ha4 ha5 ha6 ha7 hat => SqiProofs.FiatBytes5.to_bytes_correct a0 a1 a2 a3 a4 a5 a6 a7 ha0 ha1 ha2 ha3 ha4 ha5 ha6 ha7 hat,
+   fun b0 b1 b2 b3 b4 b5 b6 b7 b8 b9 b10 b11 b12 b13 b14 b15 b16 b17 b18 b19 b20 b21 b22 b23 b24 b25 b26 b27 b28 b29 b30 b31 b32 b33 b34 b35 b36 b37 b38 b39 b40 b41 b42 b43 b44 b45 b46 b47 b48 b49 b50 b51 b52 b53 b54 b55 b56 b57 b58 b59 b60 b61 b62 b63 hb0 hb1 hb2 hb3 hb4 hb5 hb6 hb7 hb8 hb9 hb10 hb11 hb12 hb13 hb14 hb15 hb16 hb17 hb18 hb19 hb20 hb21 hb22 hb23 hb24 hb25 hb26 hb27 hb28 hb29 hb30 hb31 hb32 hb33 hb34 hb35 hb36 hb37 hb38 hb39 hb40 hb41 hb42 hb43 hb44 hb45 hb46 hb47 hb48 hb49 hb50 hb51 hb52 hb53 hb54 hb55 hb56 hb57 hb58 hb59 hb60 hb61 hb62 hb63 => SqiProofs.FiatBytes5.from_bytes_correct b0 b1 b2 b3 b4 b5 b6 b7 b8 b9 b10 b11 b12 b13 b14 b15 b16 b17 b18 b19 b20 b21 b22 b23 b24 b25 b26 b27 b28 b29 b30 b31 b32 b33 b34 b35 b36 b37 b38 b39 b40 b41 b42 b43 b44 b45 b46 b47 b48 b49 b50 b51 b52 b53 b54 b55 b56 b57 b58 b59 b60 b61 b62 b63 hb0 hb1 hb2 hb3 hb4 hb5 hb6 hb7 hb8 hb9 hb10 hb11 hb12 hb13 hb14 hb15 hb16 hb17 hb18 hb19 hb20 hb21 hb22 hb23 hb24 hb25 hb26 hb27 hb28 hb29 hb30 hb31 hb32 hb33 hb34 hb35 hb36 hb37 hb38 hb39 hb40 hb41 hb42 hb43 hb44 hb45 hb46 hb47 hb48 hb49 hb50 hb51 hb52 hb53 hb54 hb55 hb56 hb57 hb58 hb59 hb60 hb61 hb62 hb63⟩
 
 /-! ### the ref back-end stated over the GENERATED programs
 
